@@ -11,6 +11,7 @@ import time
 
 # property -> (harness modules, harness names)
 PROPS: dict[str, dict] = {
+    "C17": {"modules": ["vf.h_wire"], "harnesses": ["shm-wire-smt"]},
     "C08": {"modules": ["vf.h_shm"], "harnesses": ["shm-step"]},
     "C09": {"modules": ["vf.h_shm"], "harnesses": ["shm-step-bytes", "shm-evict-liveness"]},
 }
